@@ -213,12 +213,24 @@ func valTok(v interface{}) int {
 	case uint64:
 		return int(x)
 	case float32:
+		if x == float32(1.0e20) {
+			return fillTok
+		}
 		return int(x)
 	case float64:
+		if x == 1.0e20 {
+			return fillTok
+		}
 		return int(x)
 	case complex64:
+		if x == complex64(1.0e20+0i) {
+			return fillTok
+		}
 		return int(real(x))
 	case complex128:
+		if x == complex128(1.0e20+0i) {
+			return fillTok
+		}
 		return int(real(x))
 	case bool:
 		if x {
@@ -237,6 +249,9 @@ func valTok(v interface{}) int {
 	}
 	panic(fmt.Sprintf("valTok: %T", v))
 }
+
+// fillTok is the token of the default fill value (1e20) of the float and complex types.
+const fillTok = 88888888
 
 // backing builds a []T of the dtype holding tokens toks.
 func backing(dt string, toks []int) interface{} {
